@@ -13,16 +13,16 @@ Cfgs == {[ns |-> NS, connWin0 |-> cw, initWin0 |-> iw, maxFrame0 |-> mf] : cw \i
 MCInit == /\ \E c \in Cfgs : InitWith(c)
           /\ nWU = 0 /\ nSet = 0
 
-Env == \/ Open /\ UNCHANGED <<nWU, nSet>>
-       \/ \E s \in 0..NS, n \in 1..2 : WindowUpdate(s, n) /\ nWU < MaxWU /\ nWU' = nWU + 1 /\ UNCHANGED nSet
-       \/ \E iw \in 0..2, mf \in 1..2 : Settings(iw, mf) /\ (iw # initWin \/ mf # maxFrame) /\ nSet < MaxSet /\ nSet' = nSet + 1 /\ UNCHANGED nWU
-       \/ \E s \in 1..NS, n \in 1..2 : AppWrite(s, n) /\ written[s] + n <= MaxWrite /\ UNCHANGED <<nWU, nSet>>
-       \/ \E s \in 1..NS : AppFinish(s) /\ UNCHANGED <<nWU, nSet>>
+MCOpen == Open /\ UNCHANGED <<nWU, nSet>>
+MCWindowUpdate == \E s \in 0..NS, n \in 1..2 : WindowUpdate(s, n) /\ nWU < MaxWU /\ nWU' = nWU + 1 /\ UNCHANGED nSet
+MCSettings == \E iw \in 0..2, mf \in 1..2 : Settings(iw, mf) /\ (iw # initWin \/ mf # maxFrame) /\ nSet < MaxSet /\ nSet' = nSet + 1 /\ UNCHANGED nWU
+MCWrite == \E s \in 1..NS, n \in 1..2 : AppWrite(s, n) /\ written[s] + n <= MaxWrite /\ UNCHANGED <<nWU, nSet>>
+MCFinish == \E s \in 1..NS : AppFinish(s) /\ UNCHANGED <<nWU, nSet>>
+MCSend == SendAny /\ UNCHANGED <<nWU, nSet>>
+MCQuiesce == Quiesce /\ UNCHANGED <<nWU, nSet>>
 
-Srv == (SendAny \/ Quiesce) /\ UNCHANGED <<nWU, nSet>>
-
-MCNext == Env \/ Srv
-Spec == MCInit /\ [][MCNext]_mcvars /\ WF_mcvars(SendAny /\ UNCHANGED <<nWU, nSet>>)
+MCNext == MCOpen \/ MCWindowUpdate \/ MCSettings \/ MCWrite \/ MCFinish \/ MCSend \/ MCQuiesce
+Spec == MCInit /\ [][MCNext]_mcvars /\ WF_mcvars(MCSend)
 SpecNoFair == MCInit /\ [][MCNext]_mcvars
 
 (* "streams blocked on flow control resume when the window opens": a sendable stream does not stay
